@@ -64,14 +64,14 @@ func c20Run(ctx *core.Ctx) {
 		nConc /= 3
 		nReplay /= 3
 	}
-	ctx.Rule = fmt.Sprintf("under the race detector (GOMAXPROCS default and 1%s): all orders of up to %d harness events from {delivery completes, client sends RSET, client submits the next transaction, client sends QUIT, peer disconnects, Server.Close, Server.Shutdown} for a parked chunked (BDAT) delivery, a parked LMTP DATA delivery and a parked LMTP BDAT delivery; Server.Close / Conn.Close overlapping each backend callback kind (callback parked on a gate, second closer on another goroutine; also called directly from Mail/Rcpt/Data/NewSession); %d barrier-released groups of 2..8 concurrent Close/Shutdown callers on 1..2 listeners (with and without a failing listener Close) checked for linearizability with porcupine against 'first caller gets the listener result, later ones ErrServerClosed'; all sequences of length <=5 of temporary/permanent Accept errors; %d cases replayed from the C03/C05/C13 generators for race coverage. Oracles: race-log parser, termination of Serve/handlers/deliveries, goroutine table at the end of the run. Non-trivial: every case; distinct by case.", map[bool]string{true: ", 4", false: ""}[ctx.Thorough()], maxOrder, nConc, nReplay)
+	ctx.Rule = fmt.Sprintf("under the race detector (GOMAXPROCS default and 1%s): all orders of up to %d harness events from {delivery completes, client sends RSET, client submits the next transaction, client sends QUIT, peer disconnects, Server.Close, Server.Shutdown} for a parked chunked (BDAT) delivery, a parked LMTP DATA delivery, a parked LMTP BDAT delivery and a parked BDAT delivery of an LMTP server over a plain Session; Server.Close / Conn.Close overlapping each backend callback kind (callback parked on a gate, second closer on another goroutine; also called directly from Mail/Rcpt/Data/NewSession); %d barrier-released groups of 2..8 concurrent Close/Shutdown callers on 1..2 listeners (with and without a failing listener Close) checked for linearizability with porcupine against 'first caller gets the listener result, later ones ErrServerClosed'; all sequences of length <=5 of temporary/permanent Accept errors; %d cases replayed from the C03/C05/C13 generators for race coverage. Oracles: race-log parser, termination of Serve/handlers/deliveries, goroutine table at the end of the run. Non-trivial: every case; distinct by case.", map[bool]string{true: ", 4", false: ""}[ctx.Thorough()], maxOrder, nConc, nReplay)
 	ctx.Assumptions = []string{"the race detector only sees executed accesses", "known race findings are matched by exact statement pair", "Serve calls that start after Close are not judged"}
 	core.RunCases(ctx, func(emit func(c20Case)) {
 		events := []string{"D", "R", "N", "Q", "X", "C", "S"}
 		var rec func(cur []string)
 		rec = func(cur []string) {
 			if len(cur) > 0 {
-				for _, tr := range []string{"bdat", "lmtpdata", "lmtpbdat"} {
+				for _, tr := range []string{"bdat", "lmtpdata", "lmtpbdat", "lmtpplainbdat"} {
 					emit(c20Case{Kind: "order", Order: append([]string{}, cur...), Transfer: tr})
 					if ctx.Thorough() && len(cur) <= 3 {
 						for rep := 1; rep <= 4; rep++ {
@@ -122,7 +122,7 @@ func c20Run(ctx *core.Ctx) {
 			emit(c20Case{Kind: "accept", Accept: append([]string{}, parts...), Direct: true}) // end with Shutdown instead of Close
 		})
 		// connections that are still in their (implicit) TLS handshake, or idle, when Close / Shutdown fires
-		for _, st := range []string{"tls-stalled", "tls-half", "plain-idle", "plain-greeted"} {
+		for _, st := range []string{"tls-stalled", "tls-half", "plain-idle", "plain-greeted", "starttls-stalled", "starttls-half"} {
 			for _, how := range []string{"Close", "Shutdown"} {
 				for rep := 0; rep < 3; rep++ {
 					emit(c20Case{Kind: "stalled", Transfer: st, Callback: how, Seed: uint64(rep)})
@@ -174,6 +174,9 @@ func c20Order(ctx *core.Ctx, c c20Case) {
 	if c.Transfer != "bdat" {
 		mode = modeLMTPRcpt
 	}
+	if c.Transfer == "lmtpplainbdat" {
+		mode = modeLMTP // LMTP server over a plain Session: the server itself fans the result out per recipient
+	}
 	rig := newRig(mode, nil)
 	gate := rec.NewGate()
 	defer gate.OpenAll()
@@ -207,7 +210,7 @@ func c20Order(ctx *core.Ctx, c c20Case) {
 		return
 	}
 	switch c.Transfer {
-	case "bdat", "lmtpbdat":
+	case "bdat", "lmtpbdat", "lmtpplainbdat":
 		p.SendStr("BDAT 4\r\n")
 		p.SendStr("park")
 		p.ReadReply()
@@ -331,6 +334,13 @@ func c20Order(ctx *core.Ctx, c c20Case) {
 	// lifecycle: exactly one Logout per session (Server.Close does not join handlers: wait for the close event)
 	c20WaitConnClosed(rig.Log)
 	c20WaitLogouts(rig.Log)
+	// (not judged when Server.Close was among the events: a command that is already buffered when
+	// Close takes the session away makes the handler trip over the nil session; that recovered
+	// panic reaches neither the backend nor the peer and no property speaks about it)
+	if pm := logPanic(rig.Log.Events()); pm != "" && !strings.Contains(strings.Join(c.Order, ""), "C") {
+		fail("C20:recovered-panic", "the server recovered a panic of its own making (the backend script never panics): "+clipStr(pm, 300), nil)
+		return
+	}
 	logouts := map[int]int{}
 	sessions := map[int]bool{}
 	for _, e := range rig.Log.Events() {
@@ -789,8 +799,17 @@ func c20Replay(ctx *core.Ctx, c c20Case) {
 // when Close fires must be ended by Close; Shutdown must wait for it and return once the peer
 // goes away. No handler may stay behind.
 func c20Stalled(ctx *core.Ctx, c c20Case) {
+	class := "c20stalled|" + c.Transfer + "|" + c.Callback
+	if gaveUp(class) {
+		ctx.Add("cases_skipped_after_an_established_hang", 1)
+		return
+	}
 	ctx.Eval(fmt.Sprintf("stalled|%s|%s|%d", c.Transfer, c.Callback, c.Seed), true)
-	rig := newRig(modeSMTP, nil)
+	rig := newRig(modeSMTP, func(s *smtp.Server) {
+		if strings.HasPrefix(c.Transfer, "starttls") {
+			s.TLSConfig = wire.ServerTLS()
+		}
+	})
 	cEnd, sEnd := memconn.Pipe(rig.Log)
 	cEnd.SetWatchdog(wire.Watchdog)
 	isTLS := strings.HasPrefix(c.Transfer, "tls")
@@ -806,6 +825,18 @@ func c20Stalled(ctx *core.Ctx, c c20Case) {
 		buf := make([]byte, 256)
 		cEnd.Read(buf)
 		cEnd.Write([]byte("EHLO c.test\r\n"))
+	case "starttls-stalled", "starttls-half":
+		// STARTTLS is accepted (220) and then the peer never sends / never finishes its ClientHello:
+		// the server waits inside the handshake
+		buf := make([]byte, 256)
+		cEnd.Read(buf)
+		cEnd.Write([]byte("EHLO c.test\r\n"))
+		cEnd.WaitPeerIdle(wire.Watchdog)
+		cEnd.Write([]byte("STARTTLS\r\n"))
+		if c.Transfer == "starttls-half" {
+			cEnd.WaitPeerIdle(wire.Watchdog)
+			cEnd.Write([]byte{22, 3, 1, 0, 200, 1, 0})
+		}
 	}
 	rig.L.WaitDrained()
 	if idle, err := cEnd.WaitPeerIdle(wire.Watchdog); err != nil || !idle {
@@ -818,7 +849,21 @@ func c20Stalled(ctx *core.Ctx, c c20Case) {
 		ctx.Violate(sig, msg+fmt.Sprintf(" [state=%s ended by %s]", c.Transfer, c.Callback), c, append(rig.Log.Strings(40), extra...))
 	}
 	if c.Callback == "Close" {
-		rig.Srv.Close()
+		cd := make(chan struct{})
+		go func() { rig.Srv.Close(); close(cd) }()
+		select {
+		case <-cd:
+		case <-time.After(wire.Watchdog):
+			giveUp(class)
+			lines, blocked := c20Blocked()
+			if blocked || len(lines) == 0 {
+				fail("C20:close-does-not-return", "Server.Close does not return while a connection is waiting for its peer", lines)
+			} else {
+				ctx.Inconclusive("C20 stalled/Close watchdog")
+			}
+			cEnd.Close()
+			return
+		}
 		// the connection must have been ended by Close: the peer sees EOF
 		buf := make([]byte, 512)
 		for {
@@ -861,6 +906,7 @@ func c20Stalled(ctx *core.Ctx, c c20Case) {
 			fail("C20:shutdown-result", fmt.Sprintf("Shutdown returned %v after the last connection ended", err), nil)
 		}
 	case <-time.After(wire.Watchdog):
+		giveUp(class)
 		lines, blocked := c20Blocked()
 		if blocked || len(lines) == 0 {
 			fail("C20:shutdown-does-not-return", "the last connection has ended but Shutdown does not return", lines)
